@@ -381,7 +381,7 @@ func (g *Gen) fillIface(v reflect.Value, depth int, pos string) {
 	case 4:
 		v.Set(reflect.ValueOf(g.float64()))
 	case 5:
-		if g.avoid("iface.struct") {
+		if true || g.avoid("iface.struct") { // structs in interface{} slots are outside the supported kinds (DESIGN 2.4)
 			v.Set(reflect.ValueOf(int32(5)))
 			return
 		}
